@@ -324,14 +324,33 @@ def gen_suite(rng, size="small"):
         grp = rng.choice(["quick", "multi"])
         leaves.append({"name": f"{grp}.t{i}", "kind": "leaf", "vms": lvms, "objs": objs, "only": only,
                        "sets": [s for s in ("normal", "minimal") if rng.random() < (0.7 if s == "normal" else 0.4)]})
+    hints = {}
     # leaf -> leaf dependency (a leaf that also produces a state used by a later leaf)
-    if len(leaves) >= 2 and rng.random() < 0.5:
+    if len(leaves) >= 2 and rng.random() < 0.6:
         prod, cons = leaves[0], leaves[-1]
+        if rng.random() < 0.6 and not any(o["get"] and not o["get_state"] for o in prod["objs"].values()):
+            # make room for a dependency through several objects: a producer with two vms, all of them used by the consumer
+            if len(prod["vms"]) < 2:
+                prod["vms"] = sorted(prod["vms"] + [rng.choice([v for v in vms if v not in prod["vms"]])])
+            cons["vms"] = sorted(set(cons["vms"]) | set(prod["vms"]))
         common = [vm for vm in prod["vms"] if vm in cons["vms"]]
         if common:
             vm = rng.choice(common)
             st = "lf" + prod["name"].split(".")[-1]
             po = prod["objs"].setdefault(f"images_{vm}", {"get": "", "get_state": "", "set_state": ""})
+            # every second time the consumer takes the states of ALL common vms from this one producer: one dependency
+            # carrying several objects (as a vm with two images does in the shipped suite)
+            many = len(common) > 1 and rng.random() < 0.7 and not any(
+                o["get"] and not o["get_state"] for o in prod["objs"].values())
+            if many:
+                hints["multidep"] = cons["name"].split(".")[-1]
+            for vm2 in (common if many else []):
+                if vm2 != vm:
+                    po2 = prod["objs"].setdefault(f"images_{vm2}", {"get": "", "get_state": "", "set_state": ""})
+                    po2["set_state"] = st
+                    cons["objs"][f"images_{vm2}"] = {"get": prod["name"].split(".")[-1], "get_state": st, "set_state": ""}
+                    if vm2 in prod["only"]:
+                        cons["only"][vm2] = list(prod["only"][vm2])
             if any(o["get"] and not o["get_state"] for o in prod["objs"].values()):
                 # the producer depends on a whole group (for this or another object) and will be cloned; cloning
                 # makes only the cloned object's state branch specific, so all clones would provide the same
@@ -362,7 +381,7 @@ def gen_suite(rng, size="small"):
     for t in tests:
         t.pop("_from", None)
         t.pop("_vmstate", None)
-    return {"vms": vms, "variants": variants, "nets": nets, "clusters": clusters, "tests": tests}
+    return {"vms": vms, "variants": variants, "nets": nets, "clusters": clusters, "tests": tests, "hints": hints}
 
 
 def _tree(names):
@@ -585,7 +604,10 @@ def gen_selection(rng, suite, max_workers=3):
     setups = [t for t in suite["tests"] if t["kind"] == "setup"]
     last = lambda t: t["name"].split(".")[-1]
     r = rng.random()
-    if r < 0.25:
+    if suite.get("hints", {}).get("multidep") and rng.random() < 0.5:
+        # the suite has a dependency through several objects: select its consumer (alone or with the other leaves)
+        tests_str = f"only leaves..{suite['hints']['multidep']}\n" if r < 0.5 else "only leaves\n"
+    elif r < 0.25:
         tests_str = "only leaves\n"
     elif r < 0.4:
         tests_str = "only normal\n"
